@@ -13,7 +13,7 @@ def load():
 
 
 def known(pid):
-    return [f for f in load() if f.get("property") == pid and f.get("status") == "known"]
+    return [f for f in load() if (f.get("property") == pid or pid in f.get("also", [])) and f.get("status") == "known"]
 
 
 def match(pid, desc):
